@@ -1,7 +1,11 @@
 // C09 — CPCA super scores are the PCA scores of the block-scaled concatenation; decided along the
 // processor-count / schedule axis (CPCA multiplies 2..4-row operands through the MT kernels).
 #include "lib.hpp"
+// the documented NIPALS convergence criterion of PCA (pca.h at the pinned commit); deliberately NOT taken from the header of
+// the tree under test: a tree that loosens the criterion must not loosen the oracle with it
+#define DOC_PCA_CRITERION 1e-10
 #include "linalg.hpp"
+#include "nipals_tol.hpp"
 #include <algorithm>
 
 struct COut { Mat super_scores, super_weights; std::vector<Mat> block_scores, block_loadings; std::vector<double> total_expvar, scaling_factor; std::vector<std::vector<double>> block_expvar; Mat pred_super; };
@@ -106,7 +110,7 @@ struct HCpca : Harness {
     LMat E = to_l(Xc); LMat G = lgram(E); LVec ev; LMat Vv; ljacobi(G, ev, Vv);
     LD tr = 0; for (LD v : ev) tr += v;
     double rmax = 0; for (int k = 0; k < npc && k + 1 < (int)ev.size(); k++) if (ev[k] > 0) rmax = fmax(rmax, (double)(ev[k + 1] / ev[k]));
-    if (tr <= 0 || rmax > 0.9 || !(ev[std::min(npc, (int)ev.size()) - 1] > 1e-10L * ev[0])) { o.counters["skipped.spectrum_not_separated"]++; o.hash = 3; return o; }
+    if (tr <= 0 || rmax > 0.94 || !(ev[std::min(npc, (int)ev.size()) - 1] > 1e-12L * ev[0])) { o.counters["skipped.spectrum_not_separated"]++; o.hash = 3; return o; }
 
     Fit A = fit(p, blocks, scaling, npc, 1, SIM_S0_SEQUENTIAL, false);
     Fit C = fit(p, blocks, scaling, npc, nproc, SIM_S0_SEQUENTIAL, false);
@@ -131,27 +135,17 @@ struct HCpca : Harness {
     // PCA of the concatenation through the library (the property's comparator)
     PcaArg pa{&Xc, npc, {}, {}};
     { sim_cfg sc; sim_cfg_default(&sc); sc.detect_races = 0; sc.nproc = 1; sc.step_limit = (tier == "quick") ? 100000000ULL : 1000000000ULL; sim_begin_run(&sc); int rc = sim_guard(call_pca, &pa); sim_end_run(nullptr); if (rc != SIM_OK) { o.counters["skipped.reference_pca_failed"]++; return o; } }
-    std::vector<double> eps(npc);
-    for (int k = 0; k < npc; k++) eps[k] = 10.0 * (k + 1) * sqrt((double)n * PCACONVERGENCE) / ((1 - rmax) / 2);
-    int kmax = npc;
-    // The criterion watches the score vector t = E p, in which a loading error along the i-th axis is damped by sigma_i/sigma_j;
-    // when component j stops, its loading may still be off along axis i by e_i <= sqrt(n*crit)*(sigma_j/sigma_i)*r/(1-r), and
-    // deflating with it leaves (sigma_j e_i)^2 in eigenvalue i.  Component k is decidable only while the sum of these
-    // relative contaminations stays well below its tolerance.
-    for (int k = 0; k < npc; k++) {
-      double rk = (k + 1 < (int)ev.size() && ev[k] > 0) ? (double)(ev[k + 1] / ev[k]) : 0.0;
-      LD contamination = 0;
-      for (int j = 0; j < k; j++) { double rj = (double)(ev[j + 1] / ev[j]), re = (1 + rj) / 2; LD q = ev[j] / ev[k]; contamination += (LD)n * PCACONVERGENCE * q * q * (re / (1 - re)) * (re / (1 - re)); }
-      if (!(ev[k] > 0) || contamination > 0.05L * eps[k] * (1 - rk)) { kmax = k; o.counters["skipped.components_below_deflation_noise"] += npc - k; break; }
-    }
+    NipalsTol tol = nipals_tolerances(ev, npc, n, DOC_PCA_CRITERION);   // accuracy of the comparator PCA, see oracle/nipals_tol.hpp
+    int kmax = tol.kmax;
+    if (kmax < npc) o.counters["skipped.components_undecidable"] += npc - kmax;
     for (int k = 0; k < kmax && !o.violation; k++) {
       LVec ts(n), tp(n); for (int i = 0; i < n; i++) { ts[i] = M.super_scores[i][k]; tp[i] = pa.scores[i][k]; }
       LD sgn = ldot(ts, tp) < 0 ? -1 : 1, d = 0, tn = lnorm(tp);
       for (int i = 0; i < n; i++) d += (ts[i] - sgn * tp[i]) * (ts[i] - sgn * tp[i]);
-      double tol = 2 * sqrt(2 * eps[k]) + 1e-8;
-      if (sqrtl(d) > tol * (tn + 1e-300L)) { char m[260]; snprintf(m, sizeof m, "super score %d differs from the PCA score of the block-scaled concatenation: relative difference %.3Lg (allowed %.3g), scaling %d, widths %s", k, sqrtl(d) / tn, tol, scaling, p.get("widths").c_str()); o.fail("super-score-not-pca-score", m); }
+      double tolk = 3 * tol.sin_angle[k] + 1e-8;
+      if (sqrtl(d) > tolk * (tn + 1e-300L)) { char m[260]; snprintf(m, sizeof m, "super score %d differs from the PCA score of the block-scaled concatenation: relative difference %.3Lg (allowed %.3g), scaling %d, widths %s", k, sqrtl(d) / tn, tolk, scaling, p.get("widths").c_str()); o.fail("super-score-not-pca-score", m); }
       LD want = pa.varexp[k];
-      if (!o.violation && fabsl((LD)M.total_expvar[k] - want) > eps[k] * fabsl(want) + 1e-9L) { char m[200]; snprintf(m, sizeof m, "total explained variance %d is %.8g, the PCA of the concatenation has %.8Lg", k, M.total_expvar[k], want); o.fail("total-variance-not-pca", m); }
+      if (!o.violation && fabsl((LD)M.total_expvar[k] - want) > 2 * tol.eval_rel[k] * fabsl(want) + 1e-9L) { char m[200]; snprintf(m, sizeof m, "total explained variance %d is %.8g, the PCA of the concatenation has %.8Lg", k, M.total_expvar[k], want); o.fail("total-variance-not-pca", m); }
     }
     // super score = block scores x super weights
     for (int k = 0; k < npc && !o.violation; k++) {
